@@ -61,6 +61,7 @@ impl<'a> T<'a> {
                 Some(f) if f != *right => (AuthSpec::exact(&[f]), "auth-former-owner"),
                 _ => (AuthSpec::exact(&[right.clone()]), "auth-right"),
             },
+            6 => (AuthSpec::All, "auth-everyone"),
             _ => (AuthSpec::exact(&[right.clone()]), "auth-right"),
         }
     }
